@@ -9,7 +9,7 @@ C19 — executable model of the code that exists.
                                    remote_ip / local_ip / sni_regexp are opaque: their verdicts for a
                                    given hello are part of the hello (observed on the real matchers).
   modules/caddyhttp/app.go         `StrictSNIHost == nil && hasTLSClientAuth()` ⇒ strict.
-  modules/caddyhttp/server.go      enforcementHandler (net.SplitHostPort + strings.EqualFold, 421).
+  modules/caddyhttp/server.go      enforcementHandler (net.SplitHostPort, `!isASCII(sni) || !strings.EqualFold(sni, host)` ⇒ 421).
   modules/caddyhttp/matchers.go    MatchHost's host extraction (SplitHostPort, else trim one `[` / `]`),
                                    which decides the site a request is routed to.
 
@@ -272,12 +272,15 @@ inductive Served where
   | handler (site : Option Nat)
   deriving DecidableEq, Repr
 
+/-- `isASCII(r.TLS.ServerName)` (RFC 6066: a server_name is ASCII; IDNs travel as A-labels) -/
+def isAscii (s : Bytes) : Bool := s.all (· < 128)
+
 /-- enforcementHandler followed by the compiled routes; `tlsSNI = none` ⇔ `r.TLS == nil` -/
 def serve (strict : Bool) (sites : List Bytes) (tlsSNI : Option Bytes) (host : Bytes) : Served :=
   match tlsSNI with
   | none => .handler (route sites host)
   | some sni =>
-    if strict && !equalFold sni (enforcementHost host) then .misdirected
+    if strict && !(isAscii sni && equalFold sni (enforcementHost host)) then .misdirected
     else .handler (route sites host)
 
 end CaddyModel.C19
